@@ -28,31 +28,31 @@ Definition word (w : text) : Prop := w <> [] /\ nospace w.
 Definition allspace (s : text) : Prop := forall c, In c s -> is_space c = true.
 Definition starts_space (s : text) : Prop := match s with [] => True | c :: _ => is_space c = true end.
 
-Lemma split_ws_space c t : is_space c = true -> split_ws (c :: t) = split_ws t.
-Proof. intros H. cbn [split_ws]. now rewrite H. Qed.
+Lemma split_ws_space c t : is_space c = true -> sv_split_ws (c :: t) = sv_split_ws t.
+Proof. intros H. cbn [sv_split_ws]. now rewrite H. Qed.
 
-Lemma split_ws_allspace : forall s rest, allspace s -> split_ws (s ++ rest) = split_ws rest.
+Lemma split_ws_allspace : forall s rest, allspace s -> sv_split_ws (s ++ rest) = sv_split_ws rest.
 Proof.
   induction s as [|c s IH]; intros rest H; [reflexivity|]. cbn [app]. rewrite split_ws_space by (apply H; now left).
   apply IH. intros d Hd. apply H. now right.
 Qed.
-Lemma split_ws_allspace_nil s : allspace s -> split_ws s = [].
+Lemma split_ws_allspace_nil s : allspace s -> sv_split_ws s = [].
 Proof. intros H. rewrite <- (app_nil_r s). now rewrite split_ws_allspace. Qed.
 
-Lemma split_ws_word_app : forall w rest, word w -> starts_space rest -> split_ws (w ++ rest) = w :: split_ws rest.
+Lemma split_ws_word_app : forall w rest, word w -> starts_space rest -> sv_split_ws (w ++ rest) = w :: sv_split_ws rest.
 Proof.
   induction w as [|c w IH]; intros rest [Hne Hns] Hr; [contradiction|].
   assert (is_space c = false) as Hc by (apply Hns; now left).
   destruct w as [|c' w].
-  - cbn [app]. cbn [split_ws]. rewrite Hc. destruct rest as [|d rest]; [reflexivity|].
+  - cbn [app]. cbn [sv_split_ws]. rewrite Hc. destruct rest as [|d rest]; [reflexivity|].
     cbn in Hr. rewrite ?Hr. reflexivity.
   - assert (word (c' :: w)) as Hw by (split; [discriminate|intros d Hd; apply Hns; now right]).
-    specialize (IH rest Hw Hr). cbn [app] in *. cbn [split_ws]. rewrite Hc.
+    specialize (IH rest Hw Hr). cbn [app] in *. cbn [sv_split_ws]. rewrite Hc.
     assert (is_space c' = false) as Hc' by (apply Hns; right; now left). rewrite Hc'.
-    cbn [split_ws] in IH. rewrite Hc' in IH. rewrite IH. reflexivity.
+    cbn [sv_split_ws] in IH. rewrite Hc' in IH. rewrite IH. reflexivity.
 Qed.
 
-Lemma split_ws_word w : word w -> split_ws w = [w].
+Lemma split_ws_word w : word w -> sv_split_ws w = [w].
 Proof. intros H. rewrite <- (app_nil_r w) at 1. rewrite split_ws_word_app; [reflexivity|assumption|exact I]. Qed.
 
 (* tokens, each preceded by a non-empty run of whitespace *)
@@ -66,7 +66,7 @@ Proof. intros H. destruct s as [|c s]; [exact I|]. cbn. apply H. now left. Qed.
 
 Lemma split_ws_join : forall items trail,
   (forall st, In st items -> sep_ok (fst st) /\ word (snd st)) -> allspace trail ->
-  split_ws (join items ++ trail) = map snd items.
+  sv_split_ws (join items ++ trail) = map snd items.
 Proof.
   induction items as [|[s t] items IH]; intros trail H Ht.
   - cbn. now apply split_ws_allspace_nil.
@@ -124,9 +124,9 @@ Proof.
     destruct Hd as [<-|Hd]; [now apply underscore_not_space|]. eapply IH; eauto.
 Qed.
 
-Lemma parse_int_word tk z : parse_int tk = Some z -> word tk.
+Lemma parse_int_word tk z : sv_parse_int tk = Some z -> word tk.
 Proof.
-  unfold parse_int. destruct tk as [|c t]; [discriminate|]. intros H. split; [discriminate|].
+  unfold sv_parse_int. destruct tk as [|c t]; [discriminate|]. intros H. split; [discriminate|].
   destruct (code c =? 43) eqn:E1.
   - intros d [<-|Hd]; [unfold is_space; cbn zeta; lia|]. eapply parse_digits_nospace; eauto.
   - destruct (code c =? 45) eqn:E2.
@@ -135,7 +135,7 @@ Proof.
     + eapply parse_digits_nospace; eauto.
 Qed.
 
-Lemma parse_int_not_v tk z : parse_int tk = Some z -> text_eqb tk t_v = false.
+Lemma parse_int_not_v tk z : sv_parse_int tk = Some z -> text_eqb tk t_v = false.
 Proof.
   intros H. apply text_eqb_neq. intros ->. vm_compute in H. discriminate.
 Qed.
@@ -143,7 +143,7 @@ Qed.
 (* the values kept from a list of integer tokens: every token except the literal "0" *)
 Definition kept (vals : list (text * Z)) : list Z :=
   map snd (filter (fun tz => negb (text_eqb (fst tz) t_0)) vals).
-Definition denote_ok (vals : list (text * Z)) : Prop := forall tz, In tz vals -> parse_int (fst tz) = Some (snd tz).
+Definition denote_ok (vals : list (text * Z)) : Prop := forall tz, In tz vals -> sv_parse_int (fst tz) = Some (snd tz).
 
 Lemma parse_ints_kept : forall vals, denote_ok vals ->
   parse_ints (filter keep_value (map fst vals)) = Some (kept vals)
@@ -247,7 +247,7 @@ Definition wf_line (l : oline) : Prop :=
   | LOther body => match body with [] => True | c :: _ => code c <> 115 /\ code c <> 118 end
   | LStatus sep w trail => sep_ok sep /\ word w /\ allspace trail
   | LValues items trail =>
-      (forall x, In x items -> sep_ok (fst x) /\ parse_int (fst (snd x)) = Some (snd (snd x))) /\ allspace trail
+      (forall x, In x items -> sep_ok (fst x) /\ sv_parse_int (fst (snd x)) = Some (snd (snd x))) /\ allspace trail
   end.
 
 Definition line_status (st : option bool) (l : oline) : option bool :=
@@ -289,7 +289,7 @@ Proof.
     + destruct Hl as [Hi Ht]. cbn [parse_lines].
       replace (code c_v =? 115) with false by reflexivity. replace (code c_v =? 118) with true by reflexivity.
       change (c_v :: join (item_texts items) ++ trail) with ([c_v] ++ join (item_texts items) ++ trail).
-      assert (split_ws (join (item_texts items) ++ trail) = map fst (map snd items)) as Hsplit.
+      assert (sv_split_ws (join (item_texts items) ++ trail) = map fst (map snd items)) as Hsplit.
       { rewrite split_ws_join; [| |assumption].
         - unfold item_texts. rewrite !map_map. reflexivity.
         - intros st' Hst. unfold item_texts in Hst. apply in_map_iff in Hst as [x [<- Hx]]. cbn [fst snd].
@@ -351,7 +351,7 @@ Lemma word_UNSAT : word t_UNSAT. Proof. split; [discriminate|]. intros c Hc. cbn
 (* leading white space, SAT, then integer tokens separated by white space (newlines included) *)
 Theorem parse_minisat_sat q lead items trail :
   allspace lead ->
-  (forall x, In x items -> sep_ok (fst x) /\ parse_int (fst (snd x)) = Some (snd (snd x))) -> allspace trail ->
+  (forall x, In x items -> sep_ok (fst x) /\ sv_parse_int (fst (snd x)) = Some (snd (snd x))) -> allspace trail ->
   parse_minisat q (lead ++ t_SAT ++ join (item_texts items) ++ trail) = SOk true (witness_of q (kept (map snd items))).
 Proof.
   intros Hlead Hi Ht. unfold parse_minisat. rewrite split_ws_allspace by assumption.
@@ -395,7 +395,7 @@ Proof.
   intros Hq. induction lines as [|l lines IH]; intros st wit e; cbn [parse_lines].
   - destruct st; [apply answer_not_crash|discriminate].
   - destruct l as [|c l]; [apply IH|]. destruct (code c =? 115).
-    + destruct (split_ws (c :: l)) as [|a [|b rest]]; rewrite ?Hq; apply IH.
+    + destruct (sv_split_ws (c :: l)) as [|a [|b rest]]; rewrite ?Hq; apply IH.
     + destruct (code c =? 118); [|apply IH].
       destruct (parse_ints _); [apply IH|]. unfold crashed. rewrite Hq. discriminate.
 Qed.
@@ -405,7 +405,7 @@ Proof. intros Hq output e. apply parse_lines_spec_no_crash. assumption. Qed.
 
 Theorem parse_minisat_no_crash q : q_crash q = false -> forall file e, parse_minisat q file <> SCrash e.
 Proof.
-  intros Hq file e. unfold parse_minisat. destruct (split_ws file) as [|w rest]; [discriminate|].
+  intros Hq file e. unfold parse_minisat. destruct (sv_split_ws file) as [|w rest]; [discriminate|].
   destruct (text_eqb w t_SAT).
   - destruct (parse_ints _); [apply answer_not_crash|]. unfold crashed. rewrite Hq. discriminate.
   - destruct (text_eqb w t_UNSAT); [apply answer_not_crash|discriminate].
@@ -441,7 +441,7 @@ Proof.
 Qed.
 
 Definition no_command (cmd : option text) : Prop :=
-  match cmd with None => True | Some c => split_ws c = [] end.
+  match cmd with None => True | Some c => sv_split_ws c = [] end.
 
 (* no command: the supported solvers are tried in table order, the first installed one runs with its own interface *)
 Theorem no_command_first_installed q cmd sameas installed world :
@@ -454,20 +454,20 @@ Proof.
   intros Hc Hs. unfold sat_solve.
   assert ((match sameas with Some s => negb (supported s) | None => false end) = false) as ->.
   { destruct sameas as [s|]; [now rewrite Hs|reflexivity]. }
-  assert ((match cmd with None => [] | Some c => split_ws c end) = []) as ->.
+  assert ((match cmd with None => [] | Some c => sv_split_ws c end) = []) as ->.
   { destruct cmd as [c|]; [exact Hc|reflexivity]. }
   destruct (first_installed solver_table installed) as [[n i]|]; reflexivity.
 Qed.
 
 (* a command whose first word is not a supported solver, without sameas *)
 Theorem unsupported_command q c solver rest installed world :
-  split_ws c = solver :: rest -> supported solver = false ->
+  sv_split_ws c = solver :: rest -> supported solver = false ->
   sat_solve q (Some c) None installed world = ORuntimeUnsupported.
 Proof. intros Hc Hs. unfold sat_solve. rewrite Hc, Hs. reflexivity. Qed.
 
 (* a command: the interface is that of `sameas` when given, else that of the command's first word *)
 Theorem command_runs q c solver rest sameas installed world name i :
-  split_ws c = solver :: rest ->
+  sv_split_ws c = solver :: rest ->
   name = match sameas with Some s => s | None => solver end ->
   lookup name solver_table = Some i ->
   sat_solve q (Some c) sameas installed world =
@@ -507,12 +507,12 @@ Proof.
 Qed.
 
 Theorem solve_unsupported_command q c solver rest installed world :
-  split_ws c = solver :: rest -> supported solver = false ->
+  sv_split_ws c = solver :: rest -> supported solver = false ->
   solve q (Some c) None installed world = PyRuntimeError.
 Proof. intros Hc Hs. unfold solve. now rewrite (unsupported_command q c solver rest installed world Hc Hs). Qed.
 
 Theorem solve_not_installed q c solver rest sameas installed world i :
-  split_ws c = solver :: rest ->
+  sv_split_ws c = solver :: rest ->
   lookup (match sameas with Some s => s | None => solver end) solver_table = Some i ->
   installed solver = false ->
   solve q (Some c) sameas installed world = PyRuntimeError.
@@ -522,7 +522,7 @@ Qed.
 
 (* a reachable solver speaking the stdin/stdout or file-in/stdout convention *)
 Theorem solve_stdout_convention q c solver rest sameas installed world i lines last :
-  split_ws c = solver :: rest ->
+  sv_split_ws c = solver :: rest ->
   lookup (match sameas with Some s => s | None => solver end) solver_table = Some i ->
   installed solver = true -> i <> FileinFileout ->
   world i c = render_text lines last -> wf_text lines last ->
@@ -542,12 +542,12 @@ Qed.
 
 (* a reachable solver speaking the minisat convention *)
 Theorem solve_minisat_convention_sat q c solver rest sameas installed world lead items trail :
-  split_ws c = solver :: rest ->
+  sv_split_ws c = solver :: rest ->
   lookup (match sameas with Some s => s | None => solver end) solver_table = Some FileinFileout ->
   installed solver = true ->
   world FileinFileout c = lead ++ t_SAT ++ join (item_texts items) ++ trail ->
   allspace lead ->
-  (forall x, In x items -> sep_ok (fst x) /\ parse_int (fst (snd x)) = Some (snd (snd x))) -> allspace trail ->
+  (forall x, In x items -> sep_ok (fst x) /\ sv_parse_int (fst (snd x)) = Some (snd (snd x))) -> allspace trail ->
   solve q (Some c) sameas installed world = PyPair true (witness_of q (kept (map snd items))).
 Proof.
   intros Hc Hl Hi Hw H1 H2 H3. unfold solve.
@@ -556,7 +556,7 @@ Proof.
 Qed.
 
 Theorem solve_minisat_convention_unsat q c solver rest sameas installed world lead trail :
-  split_ws c = solver :: rest ->
+  sv_split_ws c = solver :: rest ->
   lookup (match sameas with Some s => s | None => solver end) solver_table = Some FileinFileout ->
   installed solver = true ->
   world FileinFileout c = lead ++ t_UNSAT ++ trail -> allspace lead -> starts_space trail ->
@@ -607,7 +607,7 @@ Definition expected_answer (st : option bool) (A : list Z) : py_solve :=
   end.
 
 Theorem solve_stdout_spec c solver rest sameas installed world i lines last :
-  split_ws c = solver :: rest ->
+  sv_split_ws c = solver :: rest ->
   lookup (match sameas with Some s => s | None => solver end) solver_table = Some i ->
   installed solver = true -> i <> FileinFileout ->
   world i c = render_text lines last -> wf_text lines last ->
@@ -619,7 +619,7 @@ Proof.
 Qed.
 
 Theorem solve_stdout_as_is c solver rest sameas installed world i lines last :
-  split_ws c = solver :: rest ->
+  sv_split_ws c = solver :: rest ->
   lookup (match sameas with Some s => s | None => solver end) solver_table = Some i ->
   installed solver = true -> i <> FileinFileout ->
   world i c = render_text lines last -> wf_text lines last ->
@@ -632,22 +632,22 @@ Proof.
 Qed.
 
 Theorem solve_minisat_spec c solver rest sameas installed world lead items trail :
-  split_ws c = solver :: rest ->
+  sv_split_ws c = solver :: rest ->
   lookup (match sameas with Some s => s | None => solver end) solver_table = Some FileinFileout ->
   installed solver = true ->
   world FileinFileout c = lead ++ t_SAT ++ join (item_texts items) ++ trail ->
   allspace lead ->
-  (forall x, In x items -> sep_ok (fst x) /\ parse_int (fst (snd x)) = Some (snd (snd x))) -> allspace trail ->
+  (forall x, In x items -> sep_ok (fst x) /\ sv_parse_int (fst (snd x)) = Some (snd (snd x))) -> allspace trail ->
   solve spec (Some c) sameas installed world = PyPair true (Some (sort_abs (kept (map snd items)))).
 Proof. intros. erewrite solve_minisat_convention_sat by eassumption. now rewrite witness_of_spec. Qed.
 
 Theorem solve_minisat_as_is c solver rest sameas installed world lead items trail :
-  split_ws c = solver :: rest ->
+  sv_split_ws c = solver :: rest ->
   lookup (match sameas with Some s => s | None => solver end) solver_table = Some FileinFileout ->
   installed solver = true ->
   world FileinFileout c = lead ++ t_SAT ++ join (item_texts items) ++ trail ->
   allspace lead ->
-  (forall x, In x items -> sep_ok (fst x) /\ parse_int (fst (snd x)) = Some (snd (snd x))) -> allspace trail ->
+  (forall x, In x items -> sep_ok (fst x) /\ sv_parse_int (fst (snd x)) = Some (snd (snd x))) -> allspace trail ->
   kept (map snd items) <> [] ->
   solve as_is (Some c) sameas installed world = PyPair true (Some (sort_abs (kept (map snd items)))).
 Proof. intros. erewrite solve_minisat_convention_sat by eassumption. now rewrite witness_of_as_is. Qed.
@@ -670,7 +670,7 @@ Proof. destruct l; [discriminate|discriminate]. Qed.
 
 Definition itemb (x : text * (text * Z)) : bool :=
   nonemptyb (fst x) && allspaceb (fst x) &&
-  match parse_int (fst (snd x)) with Some z => z =? snd (snd x) | None => false end.
+  match sv_parse_int (fst (snd x)) with Some z => z =? snd (snd x) | None => false end.
 
 Definition wf_lineb (l : oline) : bool :=
   nolineb (render_line l) &&
@@ -680,11 +680,11 @@ Definition wf_lineb (l : oline) : bool :=
   | LValues items trail => forallb itemb items && allspaceb trail
   end.
 
-Lemma itemb_ok x : itemb x = true -> sep_ok (fst x) /\ parse_int (fst (snd x)) = Some (snd (snd x)).
+Lemma itemb_ok x : itemb x = true -> sep_ok (fst x) /\ sv_parse_int (fst (snd x)) = Some (snd (snd x)).
 Proof.
   unfold itemb. intros H. apply andb_true_iff in H as [H H3]. apply andb_true_iff in H as [H1 H2].
   split; [split; [now apply nonemptyb_ok|now apply allspaceb_ok]|].
-  destruct (parse_int (fst (snd x))) as [z|]; [|discriminate]. apply Z.eqb_eq in H3. now subst.
+  destruct (sv_parse_int (fst (snd x))) as [z|]; [|discriminate]. apply Z.eqb_eq in H3. now subst.
 Qed.
 
 Lemma wf_lineb_ok l : wf_lineb l = true -> wf_line l /\ noline (render_line l).
